@@ -234,7 +234,7 @@ func visitInstr(fr *frame, instr ssa.Instruction) continuation {
 				g.mapAccess(x, false)
 				it.total = len(x.entries)
 				if g.ex.cfg.MapRangeRotate && x.len() > 1 {
-					it.start = g.ex.Choose(g, it.total, "maprange")
+					it.start = g.ex.choose('i', it.total)
 				}
 			}
 			fr.env[instr] = it
